@@ -3,6 +3,8 @@ package main
 // Per-function verification: builds the obligations of one function under contract.
 
 import (
+	"strconv"
+	"regexp"
 	"fmt"
 	"go/ast"
 	"go/token"
@@ -75,7 +77,7 @@ func verifyFunc(prog *Program, fc *FuncContract) (res *FuncResult) {
 	e := newExec(prog, short)
 	res.Script = e.sc
 	defer func() {
-		res.Obls = e.obls
+		res.Obls = stabiliseNames(e.obls)
 		res.Notes = e.notes
 		res.Trusted = e.trusted
 		res.Inlined = e.inlined
@@ -511,7 +513,7 @@ func verifyLemma(prog *Program, pkgPath string, lm *Lemma) (res *FuncResult) {
 	e := newExec(prog, short)
 	res.Script = e.sc
 	defer func() {
-		res.Obls = e.obls
+		res.Obls = stabiliseNames(e.obls)
 		res.Notes = e.notes
 		res.Trusted = e.trusted
 		res.Inlined = e.inlined
@@ -596,6 +598,23 @@ func (fc *FuncContract) mentions(prop string) bool {
 	return false
 }
 
+// mentionsAny: the contract carries at least one property tag.
+func (fc *FuncContract) mentionsAny() bool {
+	if len(fc.Props) > 0 {
+		return true
+	}
+	for _, cs := range [][]*Clause{fc.Ensures, fc.Invs, fc.Sites} {
+		for _, c := range cs {
+			for _, p := range c.Props {
+				if p != "unclaimed" && p != "bounded" {
+					return true
+				}
+			}
+		}
+	}
+	return false
+}
+
 func hasProp(ps []string, p string) bool {
 	for _, x := range ps {
 		if x == p {
@@ -616,3 +635,40 @@ func (o *Obligation) relevant(prop string, fc *FuncContract) bool {
 
 var _ = sort.Strings
 var _ *packages.Package
+
+var siteNameRe = regexp.MustCompile(`^(.*)@L(-?\d+)((?:\.\d+)?)$`)
+
+// stabiliseNames replaces the line offset in the name of a site obligation (callsite, returnsite, no-panic,
+// pre@call: "...@L37") by the rank of that line among the sites of the same clause in the function ("...@s2"),
+// so that inserting a comment or a blank line, or moving the function, does not rename the obligation.
+func stabiliseNames(obls []*Obligation) []*Obligation {
+	lines := map[string]map[int]bool{}
+	for _, o := range obls {
+		if m := siteNameRe.FindStringSubmatch(o.Name); m != nil {
+			n, _ := strconv.Atoi(m[2])
+			if lines[m[1]] == nil {
+				lines[m[1]] = map[int]bool{}
+			}
+			lines[m[1]][n] = true
+		}
+	}
+	rank := map[string]map[int]int{}
+	for base, set := range lines {
+		var ls []int
+		for l := range set {
+			ls = append(ls, l)
+		}
+		sort.Ints(ls)
+		rank[base] = map[int]int{}
+		for i, l := range ls {
+			rank[base][l] = i + 1
+		}
+	}
+	for _, o := range obls {
+		if m := siteNameRe.FindStringSubmatch(o.Name); m != nil {
+			n, _ := strconv.Atoi(m[2])
+			o.Name = fmt.Sprintf("%s@s%d%s", m[1], rank[m[1]][n], m[3])
+		}
+	}
+	return obls
+}
